@@ -43,6 +43,15 @@ C Call amp_scat_matrix on the first angle to calc the T-matrix
       call amp_scat_matrix (axi,rat,lam,mrr,mri,eps,np,ndgs,alpha,
      &                      beta,thet0,thet(1),phi0,phi(1),
      &                      s11(1),s12(1),s21(1),s22(1),maxi)
+C a negative maxi means the T-matrix did not converge: return NaNs
+      if (maxi < 0) then
+         s11 = 0
+         s11 = s11 / s11
+         s12 = s11
+         s21 = s11
+         s22 = s11
+         return
+      end if
 C loop over the rest of the angles. T-matrix is a global (common)
       if (nang > 1) then
          do j=2, nang
